@@ -109,6 +109,9 @@ C09Thm.vos C09Thm.vok C09Thm.required_vos: C09Thm.v Base.vos Units.vos UnitsThm.
 ConfigThm2.vo ConfigThm2.glob ConfigThm2.v.beautified ConfigThm2.required_vo: ConfigThm2.v Base.vo Units.vo UnitsThm.vo Contents.vo Container.vo ContainerThm.vo ContainerThm2.vo Plate.vo PlateThm.vo Dilute.vo Solve.vo Prog.vo ConfigThm.vo
 ConfigThm2.vio: ConfigThm2.v Base.vio Units.vio UnitsThm.vio Contents.vio Container.vio ContainerThm.vio ContainerThm2.vio Plate.vio PlateThm.vio Dilute.vio Solve.vio Prog.vio ConfigThm.vio
 ConfigThm2.vos ConfigThm2.vok ConfigThm2.required_vos: ConfigThm2.v Base.vos Units.vos UnitsThm.vos Contents.vos Container.vos ContainerThm.vos ContainerThm2.vos Plate.vos PlateThm.vos Dilute.vos Solve.vos Prog.vos ConfigThm.vos
+ConfigThm3.vo ConfigThm3.glob ConfigThm3.v.beautified ConfigThm3.required_vo: ConfigThm3.v Base.vo Units.vo UnitsThm.vo Contents.vo Container.vo ContainerThm.vo ContainerThm2.vo Plate.vo PlateThm.vo Dilute.vo Solve.vo Prog.vo Recipe.vo RecipeThm.vo ConfigThm.vo ConfigThm2.vo
+ConfigThm3.vio: ConfigThm3.v Base.vio Units.vio UnitsThm.vio Contents.vio Container.vio ContainerThm.vio ContainerThm2.vio Plate.vio PlateThm.vio Dilute.vio Solve.vio Prog.vio Recipe.vio RecipeThm.vio ConfigThm.vio ConfigThm2.vio
+ConfigThm3.vos ConfigThm3.vok ConfigThm3.required_vos: ConfigThm3.v Base.vos Units.vos UnitsThm.vos Contents.vos Container.vos ContainerThm.vos ContainerThm2.vos Plate.vos PlateThm.vos Dilute.vos Solve.vos Prog.vos Recipe.vos RecipeThm.vos ConfigThm.vos ConfigThm2.vos
 CsfThm2.vo CsfThm2.glob CsfThm2.v.beautified CsfThm2.required_vo: CsfThm2.v Base.vo Units.vo UnitsThm.vo Contents.vo Container.vo ContainerThm.vo ContainerThm2.vo Plate.vo PlateThm.vo SizeThm.vo Dilute.vo Solve.vo SolveThm.vo CsfThm.vo
 CsfThm2.vio: CsfThm2.v Base.vio Units.vio UnitsThm.vio Contents.vio Container.vio ContainerThm.vio ContainerThm2.vio Plate.vio PlateThm.vio SizeThm.vio Dilute.vio Solve.vio SolveThm.vio CsfThm.vio
 CsfThm2.vos CsfThm2.vok CsfThm2.required_vos: CsfThm2.v Base.vos Units.vos UnitsThm.vos Contents.vos Container.vos ContainerThm.vos ContainerThm2.vos Plate.vos PlateThm.vos SizeThm.vos Dilute.vos Solve.vos SolveThm.vos CsfThm.vos
@@ -118,9 +121,9 @@ Instr2.vos Instr2.vok Instr2.required_vos: Instr2.v Base.vos Units.vos UnitsThm.
 Props/C12.vo Props/C12.glob Props/C12.v.beautified Props/C12.required_vo: Props/C12.v Base.vo Units.vo UnitsThm.vo Contents.vo Container.vo ContainerThm.vo ContainerThm2.vo Dilute.vo Solve.vo SolveThm.vo CsfThm.vo HistoryThm.vo CsfThm2.vo
 Props/C12.vio: Props/C12.v Base.vio Units.vio UnitsThm.vio Contents.vio Container.vio ContainerThm.vio ContainerThm2.vio Dilute.vio Solve.vio SolveThm.vio CsfThm.vio HistoryThm.vio CsfThm2.vio
 Props/C12.vos Props/C12.vok Props/C12.required_vos: Props/C12.v Base.vos Units.vos UnitsThm.vos Contents.vos Container.vos ContainerThm.vos ContainerThm2.vos Dilute.vos Solve.vos SolveThm.vos CsfThm.vos HistoryThm.vos CsfThm2.vos
-Props/C18.vo Props/C18.glob Props/C18.v.beautified Props/C18.required_vo: Props/C18.v Base.vo Units.vo UnitsThm.vo Contents.vo Container.vo ContainerThm.vo ContainerThm2.vo Plate.vo ConfigThm.vo PlateThm.vo Dilute.vo Solve.vo Prog.vo ConfigThm2.vo
-Props/C18.vio: Props/C18.v Base.vio Units.vio UnitsThm.vio Contents.vio Container.vio ContainerThm.vio ContainerThm2.vio Plate.vio ConfigThm.vio PlateThm.vio Dilute.vio Solve.vio Prog.vio ConfigThm2.vio
-Props/C18.vos Props/C18.vok Props/C18.required_vos: Props/C18.v Base.vos Units.vos UnitsThm.vos Contents.vos Container.vos ContainerThm.vos ContainerThm2.vos Plate.vos ConfigThm.vos PlateThm.vos Dilute.vos Solve.vos Prog.vos ConfigThm2.vos
+Props/C18.vo Props/C18.glob Props/C18.v.beautified Props/C18.required_vo: Props/C18.v Base.vo Units.vo UnitsThm.vo Contents.vo Container.vo ContainerThm.vo ContainerThm2.vo Plate.vo ConfigThm.vo PlateThm.vo Dilute.vo Solve.vo Prog.vo ConfigThm2.vo Recipe.vo RecipeThm.vo ConfigThm3.vo
+Props/C18.vio: Props/C18.v Base.vio Units.vio UnitsThm.vio Contents.vio Container.vio ContainerThm.vio ContainerThm2.vio Plate.vio ConfigThm.vio PlateThm.vio Dilute.vio Solve.vio Prog.vio ConfigThm2.vio Recipe.vio RecipeThm.vio ConfigThm3.vio
+Props/C18.vos Props/C18.vok Props/C18.required_vos: Props/C18.v Base.vos Units.vos UnitsThm.vos Contents.vos Container.vos ContainerThm.vos ContainerThm2.vos Plate.vos ConfigThm.vos PlateThm.vos Dilute.vos Solve.vos Prog.vos ConfigThm2.vos Recipe.vos RecipeThm.vos ConfigThm3.vos
 Props/C19.vo Props/C19.glob Props/C19.v.beautified Props/C19.required_vo: Props/C19.v Base.vo Units.vo UnitsThm.vo Contents.vo Container.vo Instr.vo ContainerThm.vo Dilute.vo Instr2.vo
 Props/C19.vio: Props/C19.v Base.vio Units.vio UnitsThm.vio Contents.vio Container.vio Instr.vio ContainerThm.vio Dilute.vio Instr2.vio
 Props/C19.vos Props/C19.vok Props/C19.required_vos: Props/C19.v Base.vos Units.vos UnitsThm.vos Contents.vos Container.vos Instr.vos ContainerThm.vos Dilute.vos Instr2.vos
